@@ -33,6 +33,7 @@ import QV.Lemmas.Hilbert
 import QV.Lemmas.Density
 
 namespace QV.Props
+namespace C02
 open QV Finset Complex Density
 open scoped ComplexOrder ComplexConjugate
 
@@ -487,4 +488,5 @@ example :
 example : (1 : ℂ) + Complex.exp (((0 : ℝ) : ℂ) + ((Real.pi : ℝ) : ℂ) * I) = 0 := by
   simp [Complex.exp_pi_mul_I]
 
+end C02
 end QV.Props
